@@ -1,4 +1,4 @@
-import ScionVerif.Lemmas.Router
+import ScionVerif.Lemmas.RouterTie
 import ScionVerif.Model.SimPacket
 /-!
 # C13 — the simulated data plane enforces the SCION forwarding rules
@@ -24,13 +24,29 @@ theorem final_hop_is_segment_end (p : Path) (h : Nat) (s : Nat) (st en : Bool)
     (hs : p.segIndex h = some (s, st, en)) (hf : h + 1 ≥ p.hopCount) : en = true :=
   segIndex_final_is_end p h s st en hs hf
 
-/-- **Forwarding only over an existing, up link named by an authentic, unexpired hop field; strictly forward.** -/
+/-- **Forwarding only over an existing, up link named by an authentic, unexpired hop field of the received
+    packet; strictly forward; arrival interface as the current hop field names it.**
+    If the AS step forwards the packet `p` out of interface `eg`, then
+    * `eg` exists and is up;
+    * `eg` is the egress interface (in travel direction) of hop field number `p2.currHf - 1` **of `p` as received**
+      (`hopE`, under info field `p2.currInf` of `p`), and that hop field – with the SegID of the received info field,
+      possibly advanced by one `mac_beta_step` with that very hop field's MAC, nothing else changed – passed the
+      validator's timestamp, expiry and MAC check under this AS's key (`Authentic`);
+    * the hop field the packet pointed at on arrival (`hopA`) passed the same checks, and unless the packet came
+      from inside the AS (`ing = 0`) and unless that hop field is only the first half of a crossover, `ing` is the
+      ingress interface `hopA` names;
+    * the pointer moved strictly forward and stays inside the path. -/
 theorem routeStd_forwardNext {macf : MacF} {localAs dstAs : Nat} {p p2 : Path} {ing now : Nat} {key : List UInt8}
     {lookup : Nat → Option IfState} {ign : Bool} {eg : Nat}
     (h : routeStd macf localAs dstAs p ing now key lookup ign = (p2, .forwardNext eg)) :
     p2.hopCount = p.hopCount ∧ p.currHf < p2.currHf ∧ p2.currHf < p.hopCount ∧
-    ∃ st hop info, lookup eg = some st ∧ st.up = true ∧ hop.egressIf info = eg ∧
-      Authentic macf key now ign hop info := by
+    (∃ st hop info hopE infoE, lookup eg = some st ∧ st.up = true ∧ hop.egressIf info = eg ∧
+      Authentic macf key now ign hop info ∧
+      p.hops[p2.currHf - 1]? = some hopE ∧ p.infos[p2.currInf]? = some infoE ∧
+      hop.SameAuth hopE ∧ info.SameSeg infoE hopE.mac ∧ hopE.egressIf infoE = eg) ∧
+    (∃ hopA infoA infoA', p.hops[p.currHf]? = some hopA ∧ p.infos[p.currInf]? = some infoA ∧
+      infoA'.SameSeg infoA hopA.mac ∧ Authentic macf key now ign hopA infoA' ∧
+      (ing ≠ 0 → hopA.ingressIf infoA = ing)) := by
   unfold routeStd at h
   simp only [] at h
   split at h
@@ -38,6 +54,8 @@ theorem routeStd_forwardNext {macf : MacF} {localAs dstAs : Nat} {p p2 : Path} {
   · simp at h
   · rename_i p1 out hin
     obtain ⟨i0, i1, i2, ile, _, _, _⟩ := advanceIngress_ok hin
+    obtain ⟨hopA, infoA, infoA', hA, hiA, hsA, hvA, _, hopE, infoE, hop1, info1, hE, hiE, h1E, h1i, hsa, hss, _⟩ :=
+      advanceIngress_tie hin
     split at h
     · simp at h
     · split at h
@@ -55,19 +73,33 @@ theorem routeStd_forwardNext {macf : MacF} {localAs dstAs : Nat} {p p2 : Path} {
               · simp at h
               · simp at h
               · rename_i p2' eo heg
-                obtain ⟨e0, e1, e2, ehf, _, elt, hop, info, _, _, hv, hegr⟩ := advanceEgress_ok heg
+                obtain ⟨e0, e1, e2, ehf, _, elt, _⟩ := advanceEgress_ok heg
+                obtain ⟨_, ecur, hop, info, hh, hi, hv, hegr⟩ := advanceEgress_tie heg
                 split at h
                 · simp at h
                 · simp only [Prod.mk.injEq, Action.forwardNext.injEq] at h
                   obtain ⟨rfl, rfl⟩ := h
-                  obtain ⟨hauth, hnamed, _⟩ := validateHop_none hv.symm
+                  obtain ⟨hauth, hnamed, _⟩ := validateHop_none hv
+                  obtain ⟨hauthA, _, hing⟩ := validateHop_none hvA
                   have hc1 : p1.hopCount = p.hopCount := hopCount_eq i0 i1 i2
                   have hnm := hnamed rfl
                   simp only [] at hnm
-                  refine ⟨by rw [hopCount_eq e0 e1 e2, hc1], by omega, by omega, st, hop, info, ?_, ?_, ?_, hauth⟩
+                  -- the hop/info fields the egress step read are the ones the ingress step left under the pointer
+                  rw [h1E] at hh; rw [h1i] at hi
+                  simp only [Option.some.injEq] at hh hi
+                  subst hh hi
+                  refine ⟨by rw [hopCount_eq e0 e1 e2, hc1], by omega, by omega,
+                    ⟨st, _, _, hopE, infoE, ?_, ?_, hegr.symm, hauth, ?_, ?_, hsa, hss, ?_⟩,
+                    ⟨hopA, infoA, infoA', hA, hiA, hsA, hauthA, ?_⟩⟩
                   · rw [hegr, hnm]; exact hst
                   · simpa using hup
-                  · exact hegr.symm
+                  · rw [ehf]; simpa using hE
+                  · rw [ecur]; exact hiE
+                  · rw [hegr, hsa.egressIf hss.2.1]
+                  · intro hne
+                    have hthis : hopA.ingressIf infoA' = ing := hing rfl rfl hne
+                    rw [← hthis]
+                    exact (Hop.SameAuth.refl hopA).ingressIf hsA.2.1.symm
 
 /-- **Local delivery only in the destination AS.** -/
 theorem routeStd_forwardLocal {macf : MacF} {localAs dstAs : Nat} {p p2 : Path} {ing now : Nat} {key : List UInt8}
@@ -152,20 +184,34 @@ theorem walk_delivered_at_dst (macf : MacF) (t : Topo) (dstAs now : Nat) (ign : 
       | drop => simp at h
 
 
-/-- **Segment changes obey the link-type table and authenticate the second hop field** (no valley, no core
-    loop, no splicing of a segment whose first hop field is not this AS's). -/
+/-- **Segment changes obey the link-type table – applied to the link the packet arrived over and the link it
+    leaves by – and authenticate the second hop field** (no valley, no core loop, no splicing of a segment whose
+    first hop field is not this AS's).  If the AS step forwards `p` out of `eg` and moved the info-field pointer,
+    then it moved to the next segment exactly, and with `hopA`/`infoA` the hop/info field `p` pointed at on arrival
+    and `nh`/`ni` the first hop field and the info field of the next segment of `p`:
+    * `a` is the state of the interface `hopA` names as ingress – which is the arrival interface `ing` whenever the
+      packet came over a link – and `b` the state of `eg`, the interface `nh` names as egress;
+    * the pair of their link types is allowed by the (generated) segment-change table;
+    * `nh` passed the timestamp/expiry/MAC check under this AS's key with the SegID `p` carries for that segment. -/
 theorem routeStd_segment_change {macf : MacF} {localAs dstAs : Nat} {p p2 : Path} {ing now : Nat} {key : List UInt8}
     {lookup : Nat → Option IfState} {ign : Bool} {eg : Nat}
     (h : routeStd macf localAs dstAs p ing now key lookup ign = (p2, .forwardNext eg))
     (hne : p2.currInf ≠ p.currInf) :
-    ∃ (a b : IfState) (nh : Hop) (ni : Info), segChangeValid a.linkType b.linkType = true ∧ lookup (nh.egressIf ni) = some b ∧
-      Authentic macf key now ign nh ni ∧ p.hops[p.currHf + 1]? = some nh := by
+    p2.currInf = p.currInf + 1 ∧ p2.currHf = p.currHf + 2 ∧
+    ∃ (a b : IfState) (hopA nh : Hop) (infoA ni : Info),
+      p.hops[p.currHf]? = some hopA ∧ p.infos[p.currInf]? = some infoA ∧
+      p.hops[p.currHf + 1]? = some nh ∧ p.infos[p.currInf + 1]? = some ni ∧
+      lookup (hopA.ingressIf infoA) = some a ∧ (ing ≠ 0 → hopA.ingressIf infoA = ing) ∧
+      lookup eg = some b ∧ nh.egressIf ni = eg ∧
+      segChangeValid a.linkType b.linkType = true ∧ Authentic macf key now ign nh ni := by
   unfold routeStd at h
   simp only [] at h
   split at h
   · simp at h
   · simp at h
   · rename_i p1 out hin
+    obtain ⟨hopA, infoA, infoA', hA, hiA, hsA, hvA, _, hopE, infoE, hop1, info1, hE, hiE, h1E, h1i, hsa, hss, hchg⟩ :=
+      advanceIngress_tie hin
     split at h
     · simp at h
     · split at h
@@ -180,16 +226,31 @@ theorem routeStd_segment_change {macf : MacF} {localAs dstAs : Nat} {p p2 : Path
               · simp at h
               · simp at h
               · rename_i p2' eo heg
-                obtain ⟨_, _, _, _, ecur, _⟩ := advanceEgress_ok heg
+                obtain ⟨ehf, ecur, hop, info, hh, hi, hv, hegr⟩ := advanceEgress_tie heg
                 split at h
                 · simp at h
                 · simp only [Prod.mk.injEq, Action.forwardNext.injEq] at h
-                  obtain ⟨h1, _⟩ := h
-                  subst h1
+                  obtain ⟨h1, h2⟩ := h
+                  subst h1 h2
                   rw [ecur] at hne
-                  obtain ⟨hop, info, nh, ni, hsc, hvh, hnh, _⟩ := advanceIngress_segchange hin hne
-                  obtain ⟨a, b, _, hb, hok⟩ := validateSegChange_none hsc
-                  exact ⟨a, b, nh, ni, hok, hb, (validateHop_none hvh).1, hnh⟩
+                  obtain ⟨c1, c2, hopA', hsA', hsc, hvh, e1, e2⟩ := hchg hne
+                  subst e1 e2
+                  rw [h1E] at hh; rw [h1i] at hi
+                  simp only [Option.some.injEq] at hh hi
+                  subst hh hi
+                  obtain ⟨a, b, ha, hb, hok⟩ := validateSegChange_none hsc
+                  obtain ⟨_, _, hing⟩ := validateHop_none hvA
+                  have hinA : hopA'.ingressIf infoA' = hopA.ingressIf infoA := hsA'.ingressIf hsA.2.1
+                  rw [c2] at hiE
+                  rw [c1] at hE
+                  refine ⟨by rw [ecur, c2], by rw [ehf, c1], a, b, hopA, hop1, infoA, info1, hA, hiA, hE, hiE, ?_, ?_, ?_,
+                    hegr.symm, hok, (validateHop_none hvh).1⟩
+                  · rw [← hinA]; exact ha
+                  · intro hne0
+                    have hthis : hopA.ingressIf infoA' = ing := hing rfl rfl hne0
+                    rw [← hthis]
+                    exact (Hop.SameAuth.refl hopA).ingressIf hsA.2.1.symm
+                  · rw [hegr]; exact hb
 
 /-- the generated segment-change table forbids valleys (no change of segment after travelling down, none
     into an up-bound segment), core loops and peer-to-peer transit -/
@@ -392,6 +453,22 @@ example :
     let h1 : Hop := ⟨false, false, 63, 7, 0, mac [] b1 100 63 7 0⟩
     let p : Path := ⟨0, 0, 2, 0, 0, [⟨true, false, 9, 100⟩], [h0, h1]⟩
     (walk mac t 2 150 false 5 1 0 p 0).map (fun r => (r.1, r.2.2)) = some (.delivered 2, 2) := by
+  decide +kernel
+
+/-! ## non-vacuity of `routeStd_forwardNext` / `routeStd_segment_change`: a core AS joining an up segment
+   (arrival over child interface 5) with a down segment (departure over child interface 6) -/
+example :
+    let mac : MacF := fun _ b t e ci ce => (b + t + e + ci + ce) % 2 ^ 48
+    let lookup : Nat → Option IfState := fun i => if i = 5 ∨ i = 6 then some ⟨.toChild, true⟩ else none
+    -- up segment (beaconed 1 → 2), travelled against construction direction; SegID as the combinator sets it
+    let u0 : Hop := ⟨false, false, 63, 0, 5, mac [] 9 100 63 0 5⟩
+    let u1 : Hop := ⟨false, false, 63, 7, 0, 0⟩
+    -- down segment (beaconed 1 → 3), travelled in construction direction
+    let d0 : Hop := ⟨false, false, 63, 0, 6, mac [] 4 100 63 0 6⟩
+    let d1 : Hop := ⟨false, false, 63, 8, 0, 0⟩
+    let p : Path := ⟨0, 1, 2, 2, 0, [⟨false, false, betaStep 9 u0.mac, 100⟩, ⟨true, false, 4, 100⟩], [u1, u0, d0, d1]⟩
+    let r := routeStd mac 1 3 p 5 150 [] lookup false
+    r.2 = .forwardNext 6 ∧ r.1.currInf = 1 ∧ r.1.currHf = 3 := by
   decide +kernel
 
 end ScionVerif.Router
